@@ -1,6 +1,9 @@
 package curl
 
 import (
+	"sync/atomic"
+	"runtime"
+	"fmt"
 	"time"
 	"sync"
 	"strings"
@@ -265,37 +268,7 @@ func runSponge(op string, in M) M {
 	case "curl.par":
 		// distinct instances used from distinct goroutines at the same time: each must behave as if it were alone
 		seed := int64(vIntOf(in["seed"]))
-		history := func(k int64) string {
-			rr := rand.New(rand.NewSource(seed + k))
-			c := NewCurlP81()
-			bs := 1 + rr.Intn(64)
-			var sb strings.Builder
-			for round := 0; round < 3; round++ {
-				src := make([]trinary.Trits, bs)
-				for j := range src {
-					src[j] = make(trinary.Trits, 243)
-					for i := range src[j] {
-						src[j][i] = int8(rr.Intn(3) - 1)
-					}
-				}
-				if err := c.Absorb(src, 243); err != nil {
-					return "error " + err.Error()
-				}
-			}
-			d := c.Clone()
-			for _, x := range []*Curl{c, d} {
-				dst := make([]trinary.Trits, bs)
-				if err := x.Squeeze(dst, 486); err != nil {
-					return "error " + err.Error()
-				}
-				for j := range dst {
-					for _, t := range dst[j] {
-						sb.WriteByte(byte('1' + t))
-					}
-				}
-			}
-			return sb.String()
-		}
+		history := func(k int64) string { return curlHistory(seed, k) }
 		msg := ""
 		p := vCatch(func() {
 			const K = 8
@@ -326,6 +299,17 @@ func runSponge(op string, in M) M {
 			p = msg
 		}
 		return M{"panic": p}
+	case "curl.first":
+		res := ""
+		for try := 0; try < vEnvInt("VERIF_FIRST_TRIES", 32) && res == ""; try++ { // each child is a fresh process: a fresh chance to collide during first use
+			r, crashed := vChild("TestVerifFirstUse", M{"seed": vIntOf(in["seed"]) + try})
+			if crashed != "" {
+				res = crashed
+			} else if r != "ok" {
+				res = r
+			}
+		}
+		return M{"panic": res}
 	case "curl.reset":
 		c := curls[vIntOf(in["id"])]
 		p := vCatch(func() { c.Reset() })
@@ -476,7 +460,11 @@ func genTransform(do func(string, M)) {
 func genSponge(do func(string, M)) {
 	r := vRand(6)
 	if vEnvInt("VERIF_PAR_MS", 1200) > 0 {
-		defer func() { do("curl.pool", M{"seed": 1, "n": 1}); do("curl.par", M{"seed": r.Intn(1 << 30)}) }()
+		defer func() {
+			do("curl.pool", M{"seed": 1, "n": 1})
+			do("curl.par", M{"seed": r.Intn(1 << 30)})
+			do("curl.first", M{"seed": r.Intn(1 << 30)})
+		}()
 	}
 	ntr := vEnvInt("VERIF_N", 12)
 	audits := vEnvInt("VERIF_AUDIT", 6)
@@ -607,6 +595,103 @@ func genSponge(do func(string, M)) {
 			do("curl.squeeze", M{"id": id, "nlanes": 64, "nblocks": 2, "bad": "", "audit": []int{}})
 		}
 	}
+}
+
+// curlHistory: one instance, three absorbed blocks of random lanes, squeezed twice (itself and a clone); the outputs as text
+func curlHistory(seed, k int64) string {
+	rr := rand.New(rand.NewSource(seed + k))
+	c := NewCurlP81()
+	bs := 1 + rr.Intn(64)
+	var sb strings.Builder
+	for round := 0; round < 3; round++ {
+		src := make([]trinary.Trits, bs)
+		for j := range src {
+			src[j] = make(trinary.Trits, 243)
+			for i := range src[j] {
+				src[j][i] = int8(rr.Intn(3) - 1)
+			}
+		}
+		if err := c.Absorb(src, 243); err != nil {
+			return "error " + err.Error()
+		}
+	}
+	d := c.Clone()
+	for _, x := range []*Curl{c, d} {
+		dst := make([]trinary.Trits, bs)
+		if err := x.Squeeze(dst, 486); err != nil {
+			return "error " + err.Error()
+		}
+		for j := range dst {
+			for _, t := range dst[j] {
+				sb.WriteByte(byte('1' + t))
+			}
+		}
+	}
+	return sb.String()
+}
+
+// TestVerifFirstUse (child process): the FIRST use of the package in a process made by several goroutines at the same
+// moment, each with its own instance (whatever the package prepares on first use - tables, CPU feature switches - must be
+// ready for all of them); compared with the same histories computed afterwards, one by one.
+func TestVerifFirstUse(t *testing.T) {
+	in := vChildSpec()
+	if in == nil {
+		t.Skip()
+	}
+	seed := int64(vIntOf(in["seed"]))
+	K := runtime.GOMAXPROCS(0)
+	if K > 16 {
+		K = 16
+	}
+	one := func(g int, c *Curl) string { // one lane, one block in, one block out: the first call already permutes
+		rr := rand.New(rand.NewSource(seed + int64(g)))
+		src := []trinary.Trits{make(trinary.Trits, 243)}
+		for i := range src[0] {
+			src[0][i] = int8(rr.Intn(3) - 1)
+		}
+		return func() string {
+			if c == nil {
+				c = NewCurlP81()
+			}
+			if err := c.Absorb(src, 243); err != nil {
+				return "error " + err.Error()
+			}
+			dst := make([]trinary.Trits, 1)
+			if err := c.Squeeze(dst, 243); err != nil {
+				return "error " + err.Error()
+			}
+			return fmt.Sprint(dst[0])
+		}()
+	}
+	got := make([]string, K)
+	var ready, release int32
+	var wg sync.WaitGroup
+	for g := 0; g < K; g++ {
+		wg.Add(1)
+		go func(g int) {
+			defer wg.Done()
+			var c *Curl
+			if g%2 == 0 && seed%2 == 0 {
+				c = NewCurlP81() // half of the runs: instances built beforehand, so that the permutation itself is what is used first
+			}
+			atomic.AddInt32(&ready, 1)
+			for atomic.LoadInt32(&release) == 0 { // spin: all goroutines leave within nanoseconds of each other
+			}
+			got[g] = one(g, c)
+		}(g)
+	}
+	for atomic.LoadInt32(&ready) < int32(K) {
+		runtime.Gosched()
+	}
+	atomic.StoreInt32(&release, 1)
+	wg.Wait()
+	res := "ok"
+	for g := 0; g < K; g++ {
+		if one(g, nil) != got[g] {
+			res = "verif: instances first used at the same moment by several goroutines gave other outputs than the same histories afterwards"
+		}
+	}
+	fmt.Println("VERIF-CHILD-OUT " + res)
 }
 
 func TestVerifDriver(t *testing.T) {
